@@ -39,3 +39,89 @@ func verifFrags(texts []string) []text.TextFragment {
 	}
 	return fs
 }
+
+// ---- C09: layout mechanisms that assign, filter or merge fragments ----------------
+
+// VerifFindVerticalGaps exposes (*ColumnDetector).findVerticalGaps (default configuration).
+func VerifFindVerticalGaps(fragments []text.TextFragment, pageWidth, pageHeight float64) []Gap {
+	return NewColumnDetector().findVerticalGaps(fragments, pageWidth, pageHeight)
+}
+
+// VerifSeparateSpanningFragments exposes (*ColumnDetector).separateSpanningFragments.
+func VerifSeparateSpanningFragments(fragments []text.TextFragment, gaps []Gap) (regular, spanning []text.TextFragment) {
+	return NewColumnDetector().separateSpanningFragments(fragments, gaps)
+}
+
+// VerifFilterStraySpanningContent exposes filterStraySpanningContent.
+func VerifFilterStraySpanningContent(spanning, regular []text.TextFragment) (kept, recovered []text.TextFragment) {
+	return filterStraySpanningContent(spanning, regular)
+}
+
+// VerifCreateColumnsFromGaps exposes (*ColumnDetector).createColumnsFromGaps.
+func VerifCreateColumnsFromGaps(fragments []text.TextFragment, gaps []Gap, pageWidth, pageHeight float64) []Column {
+	return NewColumnDetector().createColumnsFromGaps(fragments, gaps, pageWidth, pageHeight)
+}
+
+// VerifValidateColumns exposes (*ColumnDetector).validateColumns.
+func VerifValidateColumns(columns []Column) []Column {
+	return NewColumnDetector().validateColumns(columns)
+}
+
+// VerifGroupFragmentsIntoLines exposes groupFragmentsIntoLines (the Y-band grouping
+// used by column detection and ColumnLayout.GetText).
+func VerifGroupFragmentsIntoLines(fragments []text.TextFragment) [][]text.TextFragment {
+	return groupFragmentsIntoLines(fragments)
+}
+
+// VerifLineTolerance exposes (*LineDetector).calculateAdaptiveTolerance.
+func VerifLineTolerance(fragments []text.TextFragment) float64 {
+	return NewLineDetector().calculateAdaptiveTolerance(fragments)
+}
+
+// VerifGroupIntoLines exposes (*LineDetector).groupIntoLines.
+func VerifGroupIntoLines(fragments []text.TextFragment) [][]text.TextFragment {
+	return NewLineDetector().groupIntoLines(fragments)
+}
+
+// VerifBuildLines exposes (*LineDetector).buildLines.
+func VerifBuildLines(lineGroups [][]text.TextFragment, pageWidth float64) []Line {
+	return NewLineDetector().buildLines(lineGroups, pageWidth)
+}
+
+// VerifGroupIntoParagraphs exposes (*ParagraphDetector).groupIntoParagraphs with the
+// metrics Detect computes for it.
+func VerifGroupIntoParagraphs(lines []Line) []Paragraph {
+	d := NewParagraphDetector()
+	return d.groupIntoParagraphs(lines, d.calculateAverageLineSpacing(lines), d.calculateAverageFontSize(lines), d.detectLeftMargin(lines))
+}
+
+// VerifBlockGroupIntoLines exposes (*BlockDetector).groupIntoLines.
+func VerifBlockGroupIntoLines(fragments []text.TextFragment) [][]text.TextFragment {
+	return NewBlockDetector().groupIntoLines(fragments)
+}
+
+// VerifGroupLinesIntoBlocks exposes (*BlockDetector).groupLinesIntoBlocks.
+func VerifGroupLinesIntoBlocks(lines [][]text.TextFragment) []Block {
+	return NewBlockDetector().groupLinesIntoBlocks(lines)
+}
+
+// VerifMergeOverlappingBlocks exposes (*BlockDetector).mergeOverlappingBlocks.
+func VerifMergeOverlappingBlocks(blocks []Block) []Block {
+	return NewBlockDetector().mergeOverlappingBlocks(blocks)
+}
+
+// VerifBlocksOverlap exposes (*BlockDetector).blocksOverlap.
+func VerifBlocksOverlap(b1, b2 Block) bool { return NewBlockDetector().blocksOverlap(b1, b2) }
+
+// VerifSortBlocksInReadingOrder exposes (*BlockDetector).sortBlocksInReadingOrder.
+func VerifSortBlocksInReadingOrder(blocks []Block) []Block {
+	return NewBlockDetector().sortBlocksInReadingOrder(blocks)
+}
+
+// VerifValidateBlocks exposes (*BlockDetector).validateBlocks.
+func VerifValidateBlocks(blocks []Block) []Block { return NewBlockDetector().validateBlocks(blocks) }
+
+// VerifBuildElementTree exposes (*Analyzer).buildElementTree.
+func VerifBuildElementTree(result *AnalysisResult) []LayoutElement {
+	return NewAnalyzer().buildElementTree(result)
+}
